@@ -382,7 +382,9 @@ def run_unwrap(case):
        return r_
      if any(abs(x[i] - x[i - 1]) > m for i in range(1, len(x))):
        jumps = True
-  # float default (pi, 2*pi)
+  # float default (pi, 2*pi); only where the samples are small enough for a float comparison to decide
+  if any(abs(v) > 1000 for v in x):
+    return R(None, jumps, len(x))
   xf = [float(v) * 2.5 for v in x]
   got = list(unwrap(list(xf)))
   for i in range(1, len(got)):
@@ -394,7 +396,7 @@ def run_unwrap(case):
   return R(None, jumps, len(x))
 
 
-ALPHA_FINE = ["-2", "-3/4", "0", "1/4", "1/2", "1", "7/4", "3"]
+ALPHA_FINE = ["-2", "-3/4", "0", "1/4", "1/3", "1", "7/4", "3", "100000000000000001/10"]      # a non-dyadic value and one beyond 2**53: exact samples stay exact
 
 
 def gen_fine(run):
